@@ -1,0 +1,8 @@
+//go:build !verif
+
+// Package verifhook provides instrumentation points for the verification harness in /verif.
+// Without the build tag "verif" every function is empty and inlines away.
+package verifhook
+
+// At marks a synchronisation point. No-op unless built with -tags verif.
+func At(point string, keys ...string) {}
